@@ -641,41 +641,7 @@ func (c *Ctx) positionTracking(info *types.Info) {
 }
 
 func (c *Ctx) decoderDiv(info *types.Info, decFD *ast.FuncDecl) {
-	okDiv := false
-	ast.Inspect(decFD.Body, func(n ast.Node) bool {
-		cc, ok := n.(*ast.CaseClause)
-		if !ok || len(cc.List) != 1 {
-			return true
-		}
-		if id, ok := cc.List[0].(*ast.Ident); !ok || id.Name != "t1div" {
-			return true
-		}
-		ast.Inspect(cc, func(m ast.Node) bool {
-			if be, ok := m.(*ast.BinaryExpr); ok && be.Op == token.QUO {
-				depth := func(e ast.Expr) int64 {
-					ix, ok := e.(*ast.IndexExpr)
-					if !ok {
-						return -1
-					}
-					sub, ok := ix.Index.(*ast.BinaryExpr)
-					if !ok || sub.Op != token.SUB {
-						return -1
-					}
-					if call, ok := sub.X.(*ast.CallExpr); !ok || types.ExprString(call) != "len("+types.ExprString(ix.X)+")" {
-						return -1
-					}
-					k, _ := constIntOf(info, sub.Y)
-					return k
-				}
-				if depth(be.X) == 2 && depth(be.Y) == 1 {
-					okDiv = true
-				}
-			}
-			return true
-		})
-		return false
-	})
-	c.check(okDiv, "NUM-DIV", "type1.(*decodeInfo).decodeCharString", "div computes second-from-top / top", decFD.Pos(), "stack[len-2] / stack[len-1]", "the decoder's div does not divide the second-from-top operand by the top operand")
+	c.t1DivRule()
 }
 
 // glyphOpSwitches: every switch over a GlyphOpType lists all four constants or has a default.
